@@ -196,6 +196,18 @@ def polygons_family(tier="quick"):
                 s = ccw(shell) if not flip else cw(shell)
                 hs = [cw(holes[i]) if not flip else ccw(holes[i]) for i in sub]
                 out.append([flat(s)] + [flat(h) for h in hs])
+    # frames: a large hole (room for a box strictly inside it), every starting vertex of the hole ring and two of the shell -
+    # the stored order of the vertices must not matter (a box in the hole near the line from the shell's closing vertex to the
+    # hole's first vertex)
+    shell8 = [(0, 0), (8, 0), (8, 8), (0, 8)]
+    hole8 = [(1, 1), (1, 7), (7, 7), (7, 1)]
+    for sr in (0, 2):
+        for hr in range(4):
+            for flip in (False, True):
+                s = _closed(shell8[sr:] + shell8[:sr]); h = _closed(hole8[hr:] + hole8[:hr])
+                s = ccw(s) if not flip else cw(s)
+                h = cw(h) if not flip else ccw(h)
+                out.append([flat(s), flat(h)])
     return out
 
 
@@ -206,7 +218,8 @@ def multipolygons_family():
     big = [[0, 0, 6, 0, 6, 6, 0, 6, 0, 0], [1, 1, 1, 5, 5, 5, 5, 1, 1, 1]]
     island = [[2, 2, 4, 2, 4, 4, 2, 4, 2, 2]]               # nested in the hole of big
     tri = [[0, 4, 2, 6, 0, 6, 0, 4]]
-    out = [[a], [a, b], [a, c], [big, island], [a, tri], [c, tri, b], [big], [island, big]]
+    big2 = [[0, 0, 6, 0, 6, 6, 0, 6, 0, 0], [5, 5, 5, 1, 1, 1, 1, 5, 5, 5]]      # the hole starts at its far corner
+    out = [[a], [a, b], [a, c], [big, island], [a, tri], [c, tri, b], [big], [island, big], [big2], [tri, big2]]
     rev = lambda poly: [[v for p in list(zip(r[0::2], r[1::2]))[::-1] for v in p] for r in poly]  # noqa: E731
     out += [[rev(p) for p in mp] for mp in out[:5]]
     return out
